@@ -42,12 +42,22 @@
 
 /* inputs: defined const so that they live in read-only data */
 #define R5(b) (b), (b) + 3, (b) + 6, (b) + 9, (b) + 12
-const uint64_t C17_IN[3][160] = {
+static const uint64_t C17_SMALL[3][160] = {
     {R5(1000), R5(1015), R5(1030), R5(1045), 5000000000ULL},
     {7, 7, 7, 7, 900, 900, 3, 3, 3, 3, 3, 70000, 70000, 1, 2, 0xffffffffffffffffULL, 12, 12, 12, 12, 5},
     {R5(100), R5(200), R5(300), R5(400), R5(500), R5(600), R5(700), R5(800), R5(900), R5(1000), R5(1100), R5(1200), R5(1300), R5(1400), R5(1500), R5(1600), R5(1700), R5(1800), R5(1900), R5(2000),
      R5(2100), R5(2200), R5(2300), R5(2400), R5(2500), R5(2600)}};
-const size_t C17_INN[3] = {21, 21, 130};
+static uint64_t C17_LARGE[3][C17_LARGE_N];
+const uint64_t *C17_IN[C17_NIN] = {C17_SMALL[0], C17_SMALL[1], C17_SMALL[2], C17_LARGE[0], C17_LARGE[1], C17_LARGE[2]};
+const size_t C17_INN[C17_NIN] = {21, 21, 130, C17_LARGE_N, C17_LARGE_N, C17_LARGE_N};
+const size_t C17_INBYTES[C17_NIN] = {sizeof C17_SMALL[0], sizeof C17_SMALL[1], sizeof C17_SMALL[2], sizeof C17_LARGE[0], sizeof C17_LARGE[1], sizeof C17_LARGE[2]};
+void c17_init_inputs(void) {
+    for (size_t i = 0; i < C17_LARGE_N; i++) {
+        C17_LARGE[0][i] = 1000000 + (i * 7919) % 40000;       /* dense, unsorted, range < 65536, mostly distinct */
+        C17_LARGE[1][i] = i * 5 + i % 3;                       /* strictly increasing, < 65536 */
+        C17_LARGE[2][i] = ((i * 31) % 37) * 1000003 + (i % 997 == 0 ? (1ULL << 40) : 0); /* 37 distinct values, rare outliers */
+    }
+}
 
 static void o_bytes(c17_ctx *c, const void *p, size_t n) {
     if (c->obs_len + n > C17_OBS_MAX) {
@@ -396,6 +406,135 @@ static void op_bitmap(c17_ctx *c) {
     varintBitmapFree(a);
 }
 
+/* ---- large inputs: one function, the codec chosen by arg; observations are sizes, results and digests */
+static uint64_t digest(const void *p, size_t n) {
+    const uint8_t *b = (const uint8_t *)p;
+    uint64_t h = 1469598103934665603ULL;
+    for (size_t i = 0; i < n; i++) {
+        h = (h ^ b[i]) * 1099511628211ULL;
+    }
+    return h;
+}
+static void op_large(c17_ctx *c) {
+    size_t n = c->n, w = 0, r = 0;
+    switch (c->arg) {
+    case 0: {
+        varintFORMeta m;
+        memset(&m, 0, sizeof m);
+        w = varintFOREncode(c->enc, c->in, n, &m);
+        r = varintFORDecode(c->enc, c->dec, n);
+        o_u64(c, m.range + (uint64_t)m.offsetWidth);
+        break;
+    }
+    case 1: {
+        varintPFORMeta m, d, t;
+        memset(&m, 0, sizeof m);
+        memset(&d, 0, sizeof d);
+        memset(&t, 0, sizeof t);
+        o_u64(c, (uint64_t)varintPFORComputeThreshold(c->in, (uint32_t)n, 95, &t));
+        o_u64(c, t.thresholdValue + t.exceptionCount + (uint64_t)t.width + varintPFORSize(&t));
+        w = varintPFOREncode(c->enc, c->in, (uint32_t)n, 95, &m);
+        r = varintPFORDecode(c->enc, c->dec, &d);
+        o_u64(c, m.exceptionCount + m.thresholdValue);
+        break;
+    }
+    case 2:
+        w = varintDeltaEncodeUnsigned(c->enc, c->in, n);
+        r = varintDeltaDecodeUnsigned(c->enc, n, c->dec);
+        break;
+    case 3:
+        w = varintDictEncode(c->enc, c->in, n);
+        r = varintDictDecodeInto(c->enc, w, c->dec, n);
+        o_u64(c, varintDictEncodedSize(c->in, n));
+        break;
+    case 4: {
+        varintRLEMeta m;
+        memset(&m, 0, sizeof m);
+        w = varintRLEEncode(c->enc, c->in, n, &m);
+        r = varintRLEDecode(c->enc, c->dec, n);
+        o_u64(c, m.runCount);
+        break;
+    }
+    case 5: {
+        varintBP128Meta m;
+        memset(&m, 0, sizeof m);
+        w = varintBP128Encode64(c->enc, c->in, n, &m);
+        r = varintBP128Decode64(c->enc, c->dec, n);
+        o_u64(c, m.blockCount + (uint64_t)m.maxBitWidth);
+        break;
+    }
+    case 6: {
+        varintAdaptiveMeta m;
+        memset(&m, 0, sizeof m);
+        w = varintAdaptiveEncode(c->enc, c->in, n, &m);
+        r = varintAdaptiveDecode(c->enc, c->dec, n, NULL);
+        o_u64(c, (uint64_t)m.encodingType);
+        break;
+    }
+    case 7: {
+        varintAdaptiveDataStats st;
+        varintAdaptiveAnalyze(c->in, n, &st);
+        o_u64(c, st.uniqueCount + st.range + st.avgDelta + (uint64_t)varintAdaptiveSelectEncoding(&st));
+        o_u64(c, varintAdaptiveCountUnique(c->in, n) + (uint64_t)varintAdaptiveCheckSorted(c->in, n) + varintAdaptiveAvgDelta(c->in, n));
+        varintDictStats ds;
+        memset(&ds, 0, sizeof ds);
+        o_u64(c, (uint64_t)varintDictGetStats(c->in, n, &ds));
+        o_u64(c, ds.uniqueCount + ds.totalBytes);
+        varintFORMeta a;
+        memset(&a, 0, sizeof a);
+        varintFORBatchAnalyze(c->in, n, &a);
+        o_u64(c, a.range + varintFORSize(&a));
+        varintRLEMeta ra;
+        memset(&ra, 0, sizeof ra);
+        o_u64(c, (uint64_t)varintRLEAnalyze(c->in, n, &ra));
+        o_u64(c, ra.runCount + ra.encodedSize + ra.uniqueValues);
+        break;
+    }
+    case 8: {
+        varintBitmap *a = varintBitmapCreate();
+        if (!a) {
+            return;
+        }
+        uint16_t *v16 = (uint16_t *)c->enc2;
+        for (size_t i = 0; i < n; i++) {
+            v16[i] = (uint16_t)c->in[i];
+        }
+        varintBitmapAddMany(a, v16, (uint32_t)n);
+        w = varintBitmapEncode(a, c->enc);
+        varintBitmap *b = varintBitmapDecode(c->enc, w);
+        if (b) {
+            varintBitmap *x = varintBitmapAnd(a, b);
+            if (x) {
+                o_u64(c, varintBitmapCardinality(x));
+                r = varintBitmapToArray(x, (uint16_t *)c->dec);
+                varintBitmapFree(x);
+            }
+            varintBitmapFree(b);
+        }
+        o_u64(c, varintBitmapCardinality(a));
+        varintBitmapFree(a);
+        o_u64(c, w);
+        o_u64(c, r);
+        o_u64(c, digest(c->enc, w));
+        o_u64(c, digest(c->dec, r * 2));
+        return;
+    }
+    default: {
+        double *d = (double *)c->enc2;
+        for (size_t i = 0; i < n; i++) {
+            d[i] = (double)(c->in[i] % 100000) / 7.0;
+        }
+        w = varintFloatEncode(c->enc, d, n, VARINT_FLOAT_PRECISION_HIGH, VARINT_FLOAT_MODE_COMMON_EXPONENT);
+        r = varintFloatDecode(c->enc, n, (double *)c->dec);
+        break;
+    }
+    }
+    o_u64(c, w);
+    o_u64(c, r);
+    o_u64(c, digest(c->enc, w));
+    o_u64(c, digest(c->dec, n * 8));
+}
+
 #define OPS3(name, fn, arg) {name, fn, arg, 0}, {name, fn, arg, 1}, {name, fn, arg, 2}
 #define OPS2(name, fn, arg) {name, fn, arg, 0}, {name, fn, arg, 1}
 const c17_op C17_OPS[] = {
@@ -429,5 +568,19 @@ const c17_op C17_OPS[] = {
     {"packed7compact+bitstream", op_packed, 1, 0},
     OPS2("bitmap(private object)", op_bitmap, 0),
     {"bitmap(private object, runs)", op_bitmap, 1, 1},
+#define C17_FIRST_LARGE_LINE
+    /* large operations (inputs 3, 4, 5) */
+#define OPSL(name, arg) {name "[12000 dense]", op_large, arg, 3}, {name "[12000 increasing]", op_large, arg, 4}, {name "[12000 low-cardinality]", op_large, arg, 5}
+    OPSL("large FOR", 0),
+    OPSL("large PFOR(95)", 1),
+    OPSL("large delta", 2),
+    OPSL("large dict", 3),
+    OPSL("large RLE", 4),
+    OPSL("large BP128.64", 5),
+    OPSL("large adaptive.auto", 6),
+    OPSL("large analyze/stats", 7),
+    OPSL("large bitmap", 8),
+    OPSL("large float", 9),
 };
-const int C17_NOPS = (int)(sizeof C17_OPS / sizeof *C17_OPS);
+const int C17_NALL = (int)(sizeof C17_OPS / sizeof *C17_OPS);
+const int C17_NOPS = (int)(sizeof C17_OPS / sizeof *C17_OPS) - 30;
